@@ -69,6 +69,8 @@ const MAX_REORG: usize = ChainTracker::<MockListener>::MAX_REORG_SIZE;
 /// What the driver needs from a listener type
 trait TL: ChainListener<Key = OutPoint> + Clone + 'static {
     const NAME: &'static str;
+    /// whether the listener implements the streamed removal callback
+    const STREAM_REMOVE: bool;
     /// persisted / observable internal state of the listener ("monitor state")
     fn internal(&self) -> String;
     /// the listener as a restarted signer would re-create it from its persisted state
@@ -109,6 +111,7 @@ fn spend_tx(prev: OutPoint, uniq: u64, nouts: usize) -> Transaction {
 
 impl TL for MockListener {
     const NAME: &'static str = "mock";
+    const STREAM_REMOVE: bool = false; // MockListener::on_remove_streamed_block_end is unimplemented!()
     fn internal(&self) -> String {
         String::new() // private fields; only the tracker's slot for it is observable
     }
@@ -171,6 +174,7 @@ impl CommitmentPointProvider for FixedParams {
 
 impl TL for ChainMonitor {
     const NAME: &'static str = "monitor";
+    const STREAM_REMOVE: bool = true;
     fn internal(&self) -> String {
         serde_json::to_string(&*self.get_state()).unwrap_or_else(|e| format!("unserializable: {}", e))
     }
@@ -1218,7 +1222,6 @@ fn build_remove<L: TL>(
         Defect::RmBeyondWindow => V::Invalid,
         Defect::FullBlockProof => V::Unjudged,
         d if d.is_proof_clause() && is_zero_fh(&true_prev.1) => V::Unjudged,
-        Defect::None if streamed => V::Unjudged, // see the report: the API cannot accept it
         Defect::None => V::Valid,
         _ => V::Invalid,
     };
@@ -1847,7 +1850,7 @@ fn run_history<L: TL>(rng: &mut Rng, r: &mut Report, cx: &Ctx, shape: Shape, ops
         let is_add = !rng.chance(p_remove_pct, 100);
         let defect_pct: u64 = if phase_fill || (phase_unwind && h.remembered > 0) { 12 } else { 45 };
         let want_defect = rng.chance(defect_pct, 100);
-        let streamed = allow_stream && rng.chance(if is_add { 22 } else { 10 }, 100);
+        let streamed = allow_stream && (is_add || L::STREAM_REMOVE) && rng.chance(if is_add { 22 } else { 14 }, 100);
 
         let req = if is_add {
             let at_boundary = (height + 1) % DIFFCHANGE_INTERVAL == 0;
@@ -1897,7 +1900,8 @@ fn run_history<L: TL>(rng: &mut Rng, r: &mut Report, cx: &Ctx, shape: Shape, ops
             let do_remove = h.remembered > 0 && (rng.chance(if was_add { 30 } else { 70 }, 100) || phase_unwind);
             let follow_streamed = allow_stream && !do_remove && rng.chance(if was_streamed { 60 } else { 15 }, 100);
             let follow = if do_remove {
-                build_remove(&mut h, rng, cx, Defect::None, false)
+                let rs = allow_stream && L::STREAM_REMOVE && rng.chance(if was_streamed { 60 } else { 15 }, 100);
+                build_remove(&mut h, rng, cx, Defect::None, rs)
             } else {
                 let at_boundary = (h.tracker.height() + 1) % DIFFCHANGE_INTERVAL == 0;
                 let d = if at_boundary && rng.bool() && bits_level(h.tracker.tip().0.bits).is_some() {
@@ -1944,7 +1948,7 @@ fn main() {
     let quick = cli.tier.is_quick();
     let shards = if quick { 16 } else { 64 };
     // per shard
-    let (n_random, n_boundary, n_window, ops) = if quick { (12u64, 8u64, 2u64, 160u64) } else { (24, 16, 4, 200) };
+    let (n_random, n_boundary, n_window, ops) = if quick { (12u64, 8u64, 2u64, 160u64) } else { (36, 24, 6, 220) };
     let mut report = run_sharded("C13", cli.threads, shards, |i, r| {
         let secp = Secp256k1::new();
         let mut rng = Rng::new(cli.seed.wrapping_mul(1_000_003).wrapping_add(i as u64) ^ 0xC13);
@@ -1983,6 +1987,7 @@ fn main() {
     report.require("rule.later_correct_request.issued.add_after_refused_add", 300);
     report.require("add.accepted.at_retarget_boundary", 30);
     report.require("add.accepted.streamed", 100);
+    report.require("remove.accepted.streamed", 50);
     report.require("window.full_observed", 1);
     report.require("window.emptied_by_removals", 20);
     report.require("remove.beyond-header-window.refused.after_unwinding_the_full_window", 10);
@@ -2036,7 +2041,8 @@ fn main() {
                 "validity of a request is known by construction; proofs come from txoo TxoProof::prove / SpvProof::build / BlockSpendFilter (trusted components), attestations are signed with keys the driver holds".into(),
                 "regtest only (PoW is minable); the Testnet special cases in validate_block (20-minute rule, free bits changes) are not exercised".into(),
                 "ChainTracker::MAX_REORG_SIZE (public constant, 100 in this build) is taken as the header-window depth".into(),
-                "acceptance is not judged for: proof/attestation defects on top of a tip stored with an all-zero filter header (documented upgrade path), a retarget of exactly x4, a proof carrying the full block inline, and a streamed removal (see report); refusals of those are still checked for atomicity".into(),
+                "acceptance is not judged for: proof/attestation defects on top of a tip stored with an all-zero filter header (documented upgrade path), a retarget of exactly x4, and a proof carrying the full block inline; refusals of those are still checked for atomicity".into(),
+                "streamed removals are only issued with ChainMonitor listeners (MockListener::on_remove_streamed_block_end is unimplemented!())".into(),
                 "protocol misuse that the tracker answers with a panic by design (chunk at wrong offset, compact proof while a stream is open) is not generated".into(),
             ],
             start,
